@@ -180,6 +180,21 @@ impl Deserializable for Context {
         // read total number of constraints
         let num_constraints = source.read_usize()?;
 
+        // make sure the values satisfy the invariants enforced by the constructor; otherwise,
+        // computing the LDE domain size for the decoded context could overflow
+        let max_size = u32::MAX as usize;
+        let trace_length = trace_info.length();
+        if trace_length > max_size || trace_length * options.blowup_factor() > max_size {
+            return Err(DeserializationError::InvalidValue(
+                "trace length or LDE domain size is too big".to_string(),
+            ));
+        }
+        if num_constraints == 0 || num_constraints > max_size {
+            return Err(DeserializationError::InvalidValue(
+                "number of constraints must be between 1 and 2^32 - 1".to_string(),
+            ));
+        }
+
         Ok(Context {
             trace_info,
             field_modulus_bytes,
